@@ -29,6 +29,12 @@ type vPlain struct{ i int }
 
 func (p *vPlain) id() int { return p.i }
 
+// carries the Priority marker but no Order(): it is NOT ordered, hence an unordered participant
+type vMarkerOnly struct{ i int }
+
+func (p *vMarkerOnly) id() int   { return p.i }
+func (p *vMarkerOnly) Priority() {}
+
 func vClass(p vP) int {
 	switch p.(type) {
 	case *vPrio:
@@ -54,16 +60,23 @@ func VerifC12Sort() {
 	n := nd.Param("N", 3)
 	var in []vP
 	for i := 0; i < n; i++ {
-		switch nd.Choose(3) {
+		switch nd.Choose(4) {
 		case 0:
 			in = append(in, &vPrio{i: i, o: int(nd.Int64())})
 		case 1:
 			in = append(in, &vOrd{i: i, o: int(nd.Int64())})
-		default:
+		case 2:
 			in = append(in, &vPlain{i: i})
+		default:
+			in = append(in, &vMarkerOnly{i: i})
+			nd.Cover("marker-only participant")
 		}
 	}
+	saved := append([]vP{}, in...)
 	out := SortOrderedComponents(in)
+	for i := range in {
+		nd.Assert(in[i] == saved[i], "C12: sequencing the participants does not disturb the caller's own list")
+	}
 	nd.Assert(len(out) == len(in), "same length")
 	seen := make([]int, len(in))
 	for _, p := range out {
